@@ -282,6 +282,9 @@ def gen_ns(r, mods, nlevels, exotic):
                 nss[lvl][r.choice([a, r.choice(ALIAS)])] = "val:%s.%s" % (d, a)
         elif exotic:
             nss[lvl][rand_name(r)] = fresh() if r.random() < .5 or not loadable else "mod:" + r.choice(loadable)
+    if mods and r.random() < .06:
+        # a non-module object with a permissive __eq__ under the name of a package
+        nss[r.randrange(nlevels)][r.choice(sorted(mods)).split(".")[0]] = "anyeq:%d" % int(fresh()[4:])
     if mods and r.random() < .12:
         # a hand-made / stale module object: right __name__, but not the sys.modules entry
         d = r.choice(sorted(mods))
@@ -340,7 +343,11 @@ def gen_case(seed, i):
             if r.random() < .15 and "\n" not in code:
                 code = r.choice(OK_WRAP) % code
             ops.append({"op": "call", "code": code})
-    return {"i": i, "stream": stream, "mods": mods, "db": db, "forget": forget, "nss": nss,
+    extra_db = []
+    if db and r.random() < .2:
+        k_ = r.randint(1, len(db))
+        db, extra_db = db[:k_], db[k_:] + ([[rand_name(r) + "." + r.choice(ATTR), r.choice(db)[1]]] if r.random() < .5 else [])
+    return {"i": i, "stream": stream, "mods": mods, "db": db, "extra_db": extra_db, "forget": forget, "nss": nss,
             "preload": preload, "ops": ops,
             "loglevel": r.choice(["ERROR", "ERROR", "WARNING", "INFO", "DEBUG"])}
 
@@ -431,7 +438,7 @@ def gen_stale_case(seed, i):
     nlev = r.choice([2, 2, 3])
     nss = [dict() for _ in range(nlev)]
     lvl = r.randrange(nlev - 1) if r.random() < .75 else nlev - 1
-    nss[lvl][N] = "fake:1:" + N
+    nss[lvl][N] = ("fake:1:" + N) if r.random() < .5 else "anyeq:%d" % r.choice([1, 2])
     preload = [N] if r.random() < .5 else []                    # the real package may or may not be loaded
     if r.random() < .3:
         preload.append(N + "." + sub)
@@ -471,6 +478,30 @@ def gen_starforget_case(seed, i):
             "preload": [], "ops": ops}
 
 
+def gen_extradb_case(seed, i):
+    """auto_import(..., db=DB1, extra_db=DB2): the index is built over DB1 | DB2; a name with one candidate in
+    each is ambiguous (never bound, failure reported), one with the same candidate in both is not"""
+    r = cm.rng(seed, "c06-extradb", i)
+    mods = add_lazy(r, gen_world(r, clash=False))
+    P, O = r.sample(TOPS, 2)
+    mods[P] = dict(pkg=r.random() < .5, attrs=["xa", "xb"], raises=False)
+    mods[O] = dict(pkg=r.random() < .5, attrs=["xa", "xb"], raises=False)
+    close_world(mods)
+    db = [[P + ".xa", "xa"]] + [e for e in rand_db(r, mods) if e[1] not in ("xa", "xb", "al")][:2]
+    extra = [[O + ".xa", "xa"]]                                   # a DIFFERENT candidate for xa
+    if r.random() < .5:
+        db.append([P + ".xb", "xb"])
+        extra.append([P + ".xb", "xb"])                           # the SAME candidate in both: still unique
+    if r.random() < .5:
+        extra.append([O, "al"])                                   # only in extra_db: unique
+    if r.random() < .3:
+        extra.append([O + ".sa.xa", O + ".sa.xa"])                # implied parent entries come from extra_db too
+    codes = ["xa", "xa.zz , xb", "xb , al.xa", "_x = xa\n_y = xb", "al , xa + 1", O + ".sa.xa , xa"]
+    ops = [{"op": "call", "code": r.choice(codes)}, {"op": "call", "code": r.choice(codes)}]
+    return {"i": i, "stream": "extradb", "mods": mods, "db": db, "extra_db": extra, "forget": [], "nss": [{}, {}][:r.choice([1, 2])],
+            "preload": [], "ops": ops}
+
+
 def gen_f21_case(seed, i):
     """DB with __forget_imports__ entries that empty a derived key (finding F21)."""
     r = cm.rng(seed, "c06-f21", i)
@@ -488,6 +519,32 @@ def gen_f21_case(seed, i):
 
 # ---------------------------------------------------------------------------------------------
 # implementation side: runs in a forked child of the worker (fresh sys.modules / pyflyby caches)
+
+EQ_CALLS = []         # (kind, n): ==, != or hash evaluated on a harness object with a permissive __eq__
+
+
+class AnyEq(object):
+    """a NON-module object that compares equal to everything (like unittest.mock.ANY) and has no attributes"""
+    __slots__ = ("n",)
+
+    def __init__(self, n):
+        self.n = n
+
+    def __eq__(self, other):
+        EQ_CALLS.append(["eq", self.n])
+        return True
+
+    def __ne__(self, other):
+        EQ_CALLS.append(["ne", self.n])
+        return False
+
+    def __hash__(self):
+        EQ_CALLS.append(["hash", self.n])
+        return 0
+
+    def __repr__(self):
+        return "<anyeq %d>" % self.n
+
 
 class Ext(object):
     __slots__ = ("n",)
@@ -605,6 +662,14 @@ def child_main(case, root):
         for k, v in ns.items():
             if v.startswith("ext:"):
                 d[k] = Ext(int(v[4:]))
+            elif v.startswith("anyeq:"):
+                n_ = int(v.split(":")[1])
+                ob = AnyEq(n_) if n_ % 2 else __import__("unittest.mock").mock.ANY
+                if not isinstance(ob, AnyEq):
+                    keep.append(ob)
+                fakes[id(ob)] = "ext:%d" % n_
+                keep.append(ob)
+                d[k] = ob
             elif v.startswith("fake:"):
                 _, n_, nm_ = v.split(":")
                 fm = types.ModuleType(nm_)
@@ -708,8 +773,9 @@ def child_main(case, root):
            # the import sets as the DB object holds them (C12 owns how they are composed)
            "known": sorted([str(i.fullname), str(i.import_as)] for i in db.known_imports.imports),
            "forgotten": sorted([str(i.fullname), str(i.import_as)] for i in db.forget_imports.imports)}
+    extra_db = ImportDB(ImportSet([Import.from_parts(f, a) for f, a in case["extra_db"]])) if case.get("extra_db") else None
     try:
-        idx = db.by_fullname_or_import_as
+        idx = (db | extra_db if extra_db else db).by_fullname_or_import_as       # what auto_import(db=, extra_db=) indexes
         out["index"] = {k: sorted([str(i.fullname), str(i.import_as)] for i in v) for k, v in idx.items()}
     except Exception as e:
         out["index"] = "EXC " + type(e).__name__
@@ -727,9 +793,10 @@ def child_main(case, root):
             pre_cell = dict(holder["cell"])
             pre_failed = set(A._IMPORT_FAILED)
             rec["try"], rec["exec"], rec["missing"], rec["sym"] = [], [], None, []
+            del EQ_CALLS[:]
             step["imprecise"] = precise_probe(orig_fmi, code, nss)
             try:
-                r = A.auto_import(code, nss, db=db, autoimported=holder["cell"])
+                r = A.auto_import(code, nss, db=db, autoimported=holder["cell"], extra_db=extra_db)
                 step["r"] = bool(r)
                 if r is not True and r is not False:
                     step["r"] = "nonbool:%r" % (r,)
@@ -741,6 +808,8 @@ def child_main(case, root):
             kept = all(id(ns) == i0 and all(k in ns and id(ns[k]) == iv for k, iv in m0.items())
                        for ns, (i0, m0) in zip(nss, ids))
             step["kept"] = kept
+            step["eqcalls"] = [list(e) for e in EQ_CALLS]
+            del EQ_CALLS[:]
             step["added"] = [sorted(k for k in ns if k not in m0 and k != "__builtins__")
                              for ns, (i0, m0) in zip(nss, ids)]
             step["cell_changed"] = pre_cell != dict(holder["cell"])
@@ -953,7 +1022,8 @@ def model_expr(case, im, drop_empty=False):
             ops.append("(WOp (OCall %s))" % cm.copt(ms, lambda l: cm.clist([c_dotted(nm, m) for m in l])))
     expr = "run_seq %s %s %s %s %s [] [] %s %s" % (
         c_mods(nm, case["mods"]),
-        cm.clist([c_imp(nm, e) for e in im["known"]]),
+        # db | extra_db = union of the import sets, taken from the case text (not from ImportSet.__or__)
+        cm.clist([c_imp(nm, e) for e in im["known"] + [e2 for e2 in case.get("extra_db", []) if list(e2) not in [list(x) for x in im["known"]]]]),
         cm.clist([c_imp(nm, e) for e in im["forgotten"]]),
         cm.cbool(drop_empty),
         cm.clist(levels),
@@ -1084,7 +1154,7 @@ def spec_index(case, im):
         if as_ == full or "." not in full:
             return False                       # `import a.b` / `import a as b`: no module part
         return any(p in stars for p in prefixes(full.rsplit(".", 1)[0]))
-    known = [list(e) for e in case["db"] if list(e) not in forgotten and not star_removed(*e)]
+    known = [list(e) for e in list(case["db"]) + list(case.get("extra_db", [])) if list(e) not in forgotten and not star_removed(*e)]
     d = {}
     for full, as_ in known:
         d.setdefault(as_, [])
@@ -1211,6 +1281,8 @@ def oracle(ctx, prop, case, im, wfp=False):
                 bad.append(("no_internal_error", "call %d (%r) raised %s" % (k, code, st["r"])))
             prev = cur
             continue
+        if st.get("eqcalls"):
+            bad.append(("no_user_eq", "call %d (%r): auto_import evaluated %r on a namespace value (only `is` and string-keyed dict lookups are allowed)" % (k, code, st["eqcalls"][:3])))
         if st.get("imprecise") and not has_dotted_key(case, prev):
             bad.append(("missing_precise", "call %d (%r): %r reported missing although the dotted read succeeds in the given namespaces" % (k, code, st["imprecise"])))
         if prop == "C06":
@@ -1371,7 +1443,8 @@ def run_shared(ctx, prop, n=None, nf21=None):
     cases = (cm.load_corpus(prop) + [gen_case(ctx.seed, i) for i in range(n)]
              + [gen_shadow_case(ctx.seed, i) for i in range(nshadow)] + [gen_stale_case(ctx.seed, i) for i in range(nshadow // 2)]
              + [gen_large_case(ctx.seed, i, 70 if ctx.quick else 200) for i in range(3 * ctx.scale if n >= 600 else 0)]
-             + [gen_f21_case(ctx.seed, i) for i in range(nf21)] + [gen_starforget_case(ctx.seed, i) for i in range(nf21)])
+             + [gen_f21_case(ctx.seed, i) for i in range(nf21)] + [gen_starforget_case(ctx.seed, i) for i in range(nf21)]
+             + [gen_extradb_case(ctx.seed, i) for i in range(2 * nf21)])
     impl = cm.run_impl("c06", "impl_case", cases, timeout_case=40)
     exprs, nms, idxs = [], [], []
     for ci, (c, im) in enumerate(zip(cases, impl)):
